@@ -198,6 +198,7 @@ def step (st : St) (toks : List String) : St × String :=
   match toks with
   | ["reset"] => ({}, "ok")
   | ["alive"] => (st, "ok")
+  | ["headers"] => (st, "ok")
   | "iterh" :: i :: slot :: rest =>
     match i.toNat?, slot.toNat?, pRange rest with
     | some i, some slot, some (r, []) =>
